@@ -154,7 +154,7 @@ func runHarness(h *harness, fn string, overlay map[string][]byte) *harnessResult
 	os.WriteFile(ovf, ob, 0o644)
 	ctx, cancel := context.WithTimeout(context.Background(), 240*time.Second)
 	defer cancel()
-	cmd := exec.CommandContext(ctx, "go", "test", "-overlay", ovf, "-vet=off", "-count=1", "-timeout", "180s", "-run", "TestGvcReplay", "-v", ".")
+	cmd := exec.CommandContext(ctx, "go", "test", "-overlay", ovf, "-vet=off", "-count=1", "-timeout", "220s", "-run", "TestGvcReplay", "-v", ".")
 	cmd.Dir = filepath.Join(RepoDir, h.Pkg)
 	cmd.Env = append(os.Environ(), offlineEnv...)
 	cmd.Env = append(cmd.Env, envs...)
@@ -186,4 +186,57 @@ func runHarness(h *harness, fn string, overlay map[string][]byte) *harnessResult
 	harnessCache[key] = res
 	harnessMu.Unlock()
 	return res
+}
+
+// thoroughHarnesses: in the thorough tier the bounded witness searches of a property's families
+// also run on the unchanged tree, as an independent (bounded, so labelled) cross-check of the
+// contracts themselves: D20 and D21 were found this way - the code violated the property and the
+// contract of the time had encoded the code's behaviour.
+var thoroughHarnesses = map[string][]string{
+	"C01": {"H1"}, "C02": {"H1", "H6"}, "C03": {"H1", "H8"}, "C04": {"H8"}, "C05": {"H1", "H2"}, "C06": {"H1", "H2"},
+	"C07": {"H1", "H2", "H6"}, "C08": {"H1", "H2"}, "C09": {"H1", "H2"}, "C10": {"H2", "H8"}, "C11": {"H1", "H4"},
+	"C12": {"H2"}, "C13": {"H6"}, "C14": {"H3"}, "C18": {"H1", "H2"}, "C19": {"H5"},
+}
+
+// runThoroughHarnesses returns one structural obligation per harness. A scripted concurrency
+// harness (not StandIn) must fail three times in a row before it is believed.
+func runThoroughHarnesses(id string) (*FuncResult, []*harnessResult) {
+	res := &FuncResult{Name: "bounded witness searches (thorough tier)", HasContract: true}
+	var out []*harnessResult
+	for _, name := range thoroughHarnesses[id] {
+		for _, h := range harnesses {
+			if h.Name != name {
+				continue
+			}
+			var hr *harnessResult
+			tries := 1
+			if !h.StandIn {
+				tries = 3
+			}
+			for k := 0; k < tries; k++ {
+				harnessMu.Lock()
+				for key := range harnessCache {
+					if strings.HasPrefix(key, h.Name+"|") {
+						delete(harnessCache, key)
+					}
+				}
+				harnessMu.Unlock()
+				hr = runHarness(&harness{Name: h.Name, File: h.File, Pkg: h.Pkg, Bound: h.Bound + " (thorough: GVC_DEEP=1 enlarges the scope where the harness supports it: H1 1..4 nodes, H4 sequences of 5)",
+					Filter: func(string) map[string]string { return map[string]string{"GVC_DEEP": "1"} }}, "", nil)
+				if !hr.Reproduced {
+					break
+				}
+			}
+			out = append(out, hr)
+			ok := !hr.Reproduced
+			detail := fmt.Sprintf("bounded (%s): %s scenarios passed on the real code", h.Bound, hr.Scenarios)
+			if hr.Reproduced {
+				detail = "the bounded witness search found a failing input on the real code: " + hr.Failure
+			} else if !hr.Passed {
+				detail = "the witness search could not be run on this tree (not counted): " + truncate(hr.Output, 300)
+			}
+			res.Obligs = append(res.Obligs, &Oblig{Name: "bounded/" + h.Name + "[" + h.File + "]", Kind: "bounded", Func: res.Name, Structural: true, StructOK: ok, Detail: detail, Props: []string{id}})
+		}
+	}
+	return res, out
 }
